@@ -68,22 +68,19 @@ struct row_buffer_helper
         : _c{( width * pixel_bit_size< pixel_type >::value) >> 3}
         , _r{width * pixel_bit_size< pixel_type >::value - (_c << 3)}
     {
-        if (in_bytes)
-        {
-            _row_buffer.resize(width);
-        }
-        else
-        {
-            // add one byte if there are remaining bits
-            _row_buffer.resize(_c + (_r != 0));
-        }
+        // add one byte if there are remaining bits
+        _size = in_bytes ? width : _c + (_r != 0);
+
+        // a bit-aligned pixel is read by loading the whole bit field that starts at the pixel's first byte:
+        // keep sizeof(bit field) - 1 bytes readable behind the last byte that holds pixels
+        _row_buffer.resize(_size + sizeof(typename pixel_type::bitfield_t) - 1);
     }
 
     element_t* data() { return &_row_buffer[0]; }
 
     iterator_t begin() { return iterator_t( &_row_buffer.front(),0 ); }
-    iterator_t end()   { return _r == 0 ? iterator_t( &_row_buffer.back() + 1,  0 )
-                                        : iterator_t( &_row_buffer.back()    , (int) _r );
+    iterator_t end()   { return _r == 0 ? iterator_t( &_row_buffer.front() + _size,  0 )
+                                        : iterator_t( &_row_buffer.front() + _size - 1, (int) _r );
                        }
 
     buffer_t& buffer() { return _row_buffer; }
@@ -97,6 +94,7 @@ private:
 
     std::size_t _c; // number of full bytes
     std::size_t _r; // number of remaining bits
+    std::size_t _size; // number of bytes that hold pixels
 
     buffer_t _row_buffer;
 };
